@@ -1,6 +1,7 @@
 import PartituraModel.Wire
 import PartituraModel.Model.TimeMap
 import PartituraModel.Model.TimeMapHist
+import PartituraModel.Model.TimeMapCalls
 
 open Wire Model.TimeMap
 
@@ -138,6 +139,14 @@ def handle (ts : List String) : String :=
       | "iqm" => fmtList fmtVal (xs.map (invQuarterMap p))
       | "qdm" => fmtList fmtQ (xs.map (qdMap p.qd))
       | _ => "bad-request"
+  | "qdh" :: rest =>
+    -- a call history of set_quarter_duration (any order of times): the stored lists the model's list surgery
+    -- leaves, and the SPECIFICATION (last recorded call among those with the greatest time ≤ x) at every x
+    match run (do let q0 ← nat; let cs ← list (do let t ← int; let q ← nat; pure (t, q)); let xs ← list rat; pure (q0, cs, xs)) rest with
+    | none => "bad-request"
+    | some (q0, cs, xs) =>
+      fmtTuple [fmtList (fun e => fmtTuple [fmtInt e.1, fmtNat e.2]) (qdTable q0 cs),
+                fmtList fmtQ (xs.map (inForce (recorded q0 cs)))]
   | "diff" :: which :: rest =>
     -- map of part 1 minus map of part 2 at common positions (score level)
     match run (do let p1 ← parsePart; let p2 ← parsePart; let xs ← list rat; pure (p1, p2, xs)) rest with
